@@ -547,8 +547,10 @@ func (c *Conn) Query(ctx context.Context, query string, args ...any) (driver.Row
 			}
 		}
 		res = &rows{cols: []string{"_value"}}
+		le.Result = ""
 		if best != nil && best.Name != "" {
 			res.data = [][]any{{best.Value}}
+			le.Result = best.Value
 		}
 	case "ShowTables":
 		var names []string
